@@ -58,6 +58,10 @@ type Prog struct {
 	// Col: the job's base facts are not in Text but in a simplecolumn file of its own, served by a
 	// factstore.SimpleColumnStore (see column_test.go). Text empty: the job only queries that store.
 	Col *ColumnData `json:"col,omitempty"`
+	// Dates: the job has no text; it builds intervals with the date helpers of package ast (default-zone
+	// and explicit-zone ones) in a tight loop, stores them in a TemporalStore of its own and queries it
+	// (see dates_test.go).
+	Dates *DateJob `json:"dates,omitempty"`
 }
 
 // ProgCase is a set of jobs run side by side. Observed is filled in when a run of it failed.
@@ -142,6 +146,9 @@ func runJob(p Prog, evalTime time.Time) (res []string) {
 	}
 	if p.Col != nil && p.Text == "" {
 		return runColumnQueries(p.Col)
+	}
+	if p.Dates != nil && p.Text == "" {
+		return runDateJob(p.Dates)
 	}
 	unit, err := parse.Unit(strings.NewReader(p.Text))
 	if err != nil {
@@ -276,9 +283,24 @@ func checkPrograms(run *stats.Run, f stats.Failer, c ProgCase, raced func() bool
 	c.Observed, c.Note = nil, ""
 	v := verdict{labels: []string{fmt.Sprintf("jobs:%d", len(c.Progs))}}
 	et := c.evalTime()
+	// The process-wide default timezone is shared library state: no job sets it to anything but its
+	// default (UTC), so after the jobs it must be what it was before them (UTC if a job wrote it).
+	wantZone := ast.GetDefaultTimezone()
 	for _, p := range c.Progs {
 		if p.Col != nil {
 			p.Col.writeFile() // the jobs' knowledge base files exist before the jobs start
+		}
+		if p.TZ != nil || p.TouchTZ {
+			wantZone = time.UTC
+		}
+	}
+	checkZone := func(when string) {
+		if got := ast.GetDefaultTimezone(); got != wantZone {
+			ast.SetDefaultTimezone(wantZone) // later cases start from the default again
+			fc := c
+			fc.Note = "process-wide default timezone changed " + when
+			failCase(run, f, fc, "the process-wide default timezone (ast.GetDefaultTimezone) is %v %s, it was %v before and no job sets it to anything but UTC; programs:\n%s",
+				got, when, wantZone, describePrograms(c))
 		}
 	}
 	par := runParallel(c)
@@ -287,11 +309,13 @@ func checkPrograms(run *stats.Run, f stats.Failer, c ProgCase, raced func() bool
 		fc.Note = "data race reported while these programs ran side by side"
 		failCase(run, f, fc, "data race reported by the race detector while %d programs were parsed/analysed/evaluated side by side; report is in the log; programs:\n%s", len(c.Progs), describePrograms(c))
 	}
+	checkZone("after the jobs ran side by side")
 	alone := make([][]string, len(c.Progs))
 	deterministic := make([]bool, len(c.Progs))
 	texts := map[string]bool{}
 	uses := map[string]bool{}
-	okJobs, coldJobs, coldZones, zoneJobs, tzJobs, colJobs := 0, 0, 0, 0, 0, 0
+	okJobs, coldJobs, coldZones, zoneJobs, tzJobs, colJobs, dateJobs := 0, 0, 0, 0, 0, 0, 0
+	explicitZoneJob, defaultZoneJob := -1, -1 // some job constructs with explicit zones / another one through the default
 	for i, p := range c.Progs {
 		alone[i] = runJob(p, et)
 		deterministic[i] = true
@@ -309,6 +333,19 @@ func checkPrograms(run *stats.Run, f stats.Failer, c ProgCase, raced func() bool
 			}
 			if p.Text == "" {
 				b, _ := json.Marshal(p.Col)
+				texts[string(b)] = true
+			}
+		}
+		if p.Dates != nil {
+			dateJobs++
+			v.labels = append(v.labels, "date-helpers:"+p.Dates.Kind)
+			for _, sp := range p.Dates.Specs {
+				if sp.explicit() && explicitZoneJob < 0 {
+					explicitZoneJob = i
+				}
+			}
+			if p.Text == "" {
+				b, _ := json.Marshal(p.Dates)
 				texts[string(b)] = true
 			}
 		}
@@ -343,6 +380,21 @@ func checkPrograms(run *stats.Run, f stats.Failer, c ProgCase, raced func() bool
 	}
 	if raced != nil && raced() {
 		failCase(run, f, c, "data race reported by the race detector while the programs were run one after the other (see log)")
+	}
+	checkZone("after the jobs ran one after the other")
+	for i, p := range c.Progs {
+		if i == explicitZoneJob {
+			continue
+		}
+		usesDefault := p.TZ != nil || p.TouchTZ
+		if p.Dates != nil {
+			for _, sp := range p.Dates.Specs {
+				usesDefault = usesDefault || !sp.explicit()
+			}
+		}
+		if usesDefault {
+			defaultZoneJob = i
+		}
 	}
 	overlap := false
 	for i := range par {
@@ -408,6 +460,18 @@ func checkPrograms(run *stats.Run, f stats.Failer, c ProgCase, raced func() bool
 	default:
 		v.labels = append(v.labels, "column-store-jobs:0")
 	}
+	// date-helper jobs: explicit-zone construction in one goroutine next to default-zone construction in another
+	switch {
+	case dateJobs >= 2:
+		v.labels = append(v.labels, "date-helper-jobs:2+")
+	case dateJobs == 1:
+		v.labels = append(v.labels, "date-helper-jobs:1")
+	default:
+		v.labels = append(v.labels, "date-helper-jobs:0")
+	}
+	if explicitZoneJob >= 0 && defaultZoneJob >= 0 {
+		v.labels = append(v.labels, "explicit-zone-next-to-default-zone")
+	}
 	run.Label("cold-zone-names", int64(coldZones))
 	if overlap {
 		v.labels = append(v.labels, "jobs-overlapped")
@@ -435,6 +499,10 @@ func describePrograms(c ProgCase) string {
 		if p.Col != nil {
 			b, _ := json.Marshal(p.Col)
 			fmt.Fprintf(&sb, "base facts in a simplecolumn file (%s): %s\n", p.Col.served(), b)
+		}
+		if p.Dates != nil {
+			b, _ := json.Marshal(p.Dates)
+			fmt.Fprintf(&sb, "intervals built with the date helpers of package ast: %s\n", b)
 		}
 	}
 	return sb.String()
@@ -599,7 +667,7 @@ var builtinsShape = shapeDef{shapeBuiltins, true}
 var shapes = []shapeDef{
 	builtinsShape, builtinsShape, builtinsShape, {shapeTC, false}, {shapeNeg, false}, {shapeAgg, false}, {shapeTInterval, false},
 	{shapeTSeq, false}, {shapeTOp, false}, {shapeTZ, false}, {shapeParseError, false}, {shapeAnalysisError, false},
-	{shapeColumnProgram, false}, {shapeColumnQueries, false},
+	{shapeColumnProgram, false}, {shapeColumnQueries, false}, {shapeDateHelpers, false},
 }
 
 // ---------------------------------------------------------------------------------------------
@@ -694,9 +762,29 @@ func genProgCase(t *rapid.T, minJobs, maxJobs int) ProgCase {
 			n = forced + column
 		}
 	}
+	// In half of the cases 2-3 of the jobs build the intervals of their own TemporalStore with the date helpers
+	// of package ast in tight loops (date-helpers): the first with explicit zones only, the second through the
+	// process-wide default timezone only, a third as drawn. They follow the column jobs.
+	dates := 0
+	if rapid.Bool().Draw(t, "date-case") {
+		dates = rapid.IntRange(2, 3).Draw(t, "date-jobs")
+		if n < forced+column+dates {
+			n = forced + column + dates
+		}
+	}
+	dateKinds := []string{"explicit", "default", ""}
 	for i := 0; i < n; i++ {
+		if i >= forced+column && i < forced+column+dates {
+			sfx := fmt.Sprintf("%s%c", base, 'a'+i)
+			p := genDateJob(t, sfx, dateKinds[i-forced-column])
+			p.Iter = rapid.IntRange(1, 2).Draw(t, "iter")
+			p.TouchTZ = rapid.IntRange(0, 3).Draw(t, "touchtz") == 0
+			c.Progs = append(c.Progs, p)
+			continue
+		}
+		general := forced + column + dates // the general draw starts after the forced jobs
 		// sometimes the same job twice: identical texts go through the same pooled objects
-		if i >= forced+column && rapid.IntRange(0, 7).Draw(t, "dup") == 0 {
+		if i >= general && rapid.IntRange(0, 7).Draw(t, "dup") == 0 {
 			c.Progs = append(c.Progs, c.Progs[rapid.IntRange(0, i-1).Draw(t, "of")])
 			continue
 		}
@@ -705,7 +793,7 @@ func genProgCase(t *rapid.T, minJobs, maxJobs int) ProgCase {
 			sfx = fmt.Sprintf("%s%c", base, 'a'+i)
 		}
 		shape := builtinsShape
-		if i >= forced+column {
+		if i >= general {
 			shape = shapes[rapid.IntRange(0, len(shapes)-1).Draw(t, "shape")]
 		} else if i >= forced {
 			shape = columnShapes[rapid.IntRange(0, len(columnShapes)-1).Draw(t, "column-shape")]
